@@ -17,6 +17,10 @@ CLAUSE = CLAUSE + (" A forwarding client's queue cursor is drained before a serv
                    "every queued buffer); in the proxy client library a transient RPC state (WAIT_*) is left again - to CAPTURING "
                    "or, through the failure path, to ERROR - on every path of the function that entered it, whatever the "
                    "daemon's reply (a client left in a WAIT state refuses every later frame).")
+CLAUSE = CLAUSE + (" A queue buffer is published to the clients only under `res > 0` of the capture read (a device wake-up "
+                   "without a frame delivers nothing); the socket switched to non-blocking mode in "
+                   "vbi_proxy_msg_accept_connection is the one accept() returned (a stalled client cannot block the daemon's "
+                   "main loop in send()).")
 NOT_DECIDED = ("exactly-once / in-order delivery, timing, device open/close sequencing, that a stalled client loses only its own "
                "frames (schedule-dependent behaviour); the main loop's unlocked *reads* of its clients' cursors and queued frames "
                "(vbi_proxyd_send_sliced, _handle_client_sockets, _get_fd_set) are a formal data race with the acquisition thread's "
@@ -216,6 +220,8 @@ def run(ctx, run):
     from . import C19
     C19._drain_before_update(ctx, run, P.need("vbi_proxyd_take_message", UNIT))
     _client_transient_states(ctx, run)
+    _publish_only_frames(ctx, run, P.need("vbi_proxyd_forward_data", UNIT))
+    _accepted_socket_nonblocking(ctx, run)
     from .. import sweep
     sweep.run(ctx, run, ["src/proxy-client.c"], {}, 10)
 
@@ -434,3 +440,64 @@ def _settles_before_success(f, from_eid, pred):
             return False            # falls off the end of a void function
         stack.extend(s for s in nxt if s != f.exit)
     return True
+
+
+def _publish_only_frames(ctx, run, f):
+    run.touch(f)
+    n = 0
+    for bid, i in flow.all_events(f):
+        e = f.exprs[i]
+        is_pub = False
+        for lhs, var, op, rhs in flow.stores(f, i) if flow.is_event(f, i) else []:
+            if lhs is not None:
+                l = f.exprs[ex.skip(f, lhs)]
+                if l["k"] == "mem" and l["member"] in ("ref_count", "p_sliced"):
+                    is_pub = True
+        if not is_pub:
+            continue
+        n += 1
+        ats = atoms.atoms_at(f, i)
+        ok = any(a.rel == ">" and a.R is not None and a.R.const == 0 and "res" in a.L.locals for a in ats) or \
+            any(a.rel == ">=" and a.R is not None and a.R.const == 1 and "res" in a.L.locals for a in ats)
+        key = "RF-DOM:vbi_proxyd_forward_data:publish-needs-frame"
+        if ok:
+            run.holds("RF-DOM", key, "`%s` is dominated by res > 0" % ex.pretty(f, i)[:40], ex.loc(f, i))
+        else:
+            run.violation("RF-DOM", key, "`%s` hands the buffer to the clients without `res > 0`: when the capture read returns 0 (device "
+                          "readable, no complete frame) the recycled buffer - an old frame - is delivered again" % ex.pretty(f, i)[:40],
+                          ex.loc(f, i), witness={"dominating": [repr(a) for a in ats]})
+    run.floor("buffer publication stores in vbi_proxyd_forward_data", n, 2)
+
+
+def _accepted_socket_nonblocking(ctx, run):
+    f = ctx.prog.need("vbi_proxy_msg_accept_connection", "src/proxy-msg.c")
+    run.touch(f)
+    acc = None
+    for bid, i in flow.all_events(f):
+        for lhs, var, op, rhs in flow.stores(f, i):
+            if rhs is None:
+                continue
+            r = f.exprs[ex.skip(f, rhs)]
+            while r["k"] == "cast":
+                r = f.exprs[ex.skip(f, r["c"][0])]
+            if r["k"] == "call" and r.get("callee") == "accept":
+                acc = var["name"] if var is not None else f.exprs[ex.skip(f, lhs)].get("name")
+    if acc is None:
+        raise AnalysisBroken("vbi_proxy_msg_accept_connection: accept() result variable not found")
+    n = 0
+    for bid, i in flow.all_events(f):
+        e = f.exprs[i]
+        if e["k"] == "call" and e.get("callee") == "fcntl" and len(e["c"]) >= 3 and "O_NONBLOCK" in ex.pretty(f, e["c"][2]) or \
+                (e["k"] == "call" and e.get("callee") == "fcntl" and len(e["c"]) >= 3 and ex.const(f, e["c"][2]) == 0o4000):
+            n += 1
+            a0 = f.exprs[ex.skip(f, e["c"][0])]
+            while a0["k"] == "cast":
+                a0 = f.exprs[ex.skip(f, a0["c"][0])]
+            key = "RF-DEP:vbi_proxy_msg_accept_connection:nonblocking-accepted-socket"
+            if a0.get("name") == acc:
+                run.holds("RF-DEP", key, "O_NONBLOCK is set on `%s`, the descriptor accept() returned" % acc, ex.loc(f, i))
+            else:
+                run.violation("RF-DEP", key, "O_NONBLOCK is set on `%s`, not on the accepted socket `%s`: client sockets stay blocking, "
+                              "and one client that stops reading blocks the daemon's main loop in send() - no other client gets "
+                              "frames" % (a0.get("name"), acc), ex.loc(f, i))
+    run.floor("O_NONBLOCK fcntl calls in accept_connection", n, 1)
